@@ -56,6 +56,7 @@ def _one_run(eng, prop, tier, seed, plain):
     return {"ops": res["ops"], "violation": res["violation"].as_dict() if res["violation"] is not None else None,
             "digest": res["digest"], "stats": stats_dict(res["stats"]), "config": res["config"],
             "nontrivial": bool(res["nontrivial"]), "result_digest": res.get("result_digest"),
+            "trace_seed": res.get("trace_seed"),
             "sim_time": {"back_edges": SC.CLOCK.total_jumps, "row_reads": SC.CLOCK.total_rows,
                          "clock_span_s": eng.clock_span()},
             "none_seeds": seams.RNG.none_seeds}
@@ -76,7 +77,7 @@ def run_block(prop, tier, first, count, out_path, plain=False, keep_logs=False):
         digests.append([seed, res["digest"][:20], res["nontrivial"], res.get("result_digest")])
         if res["violation"] is not None and len(violations) < 40:
             violations.append({"seed": seed, "violation": res["violation"], "ops": res["ops"],
-                               "config": res["config"]})
+                               "config": res["config"], "trace_seed": res.get("trace_seed")})
         if len(samples) < 2 and res["nontrivial"] and res["violation"] is None:
             samples.append({"seed": seed, "config": res["config"], "ops": res["ops"][:12],
                             "ops_total": len(res["ops"]), "digest": res["digest"][:20]})
